@@ -35,7 +35,7 @@ BOUND = {k: v + "; plus: " + 'group and repeat targets (count(${section}) and th
 
 NAMES = ["a", "b", "c", "d", "e", "f", "g", "h", "i", "j", "k", "l", "m", "n", "o", "p"]
 CHOICES = [{"list_name": "c", "name": "x", "label": "X", "cf": "1"}, {"list_name": "c", "name": "y", "label": "Y", "cf": "2"}]
-SHAPES = ["plain", "two", "lastsaved", "lastsaved-text", "indexed", "instpred", "trigger"]
+SHAPES = ["plain", "two", "lastsaved", "lastsaved-text", "lastsaved-seed", "indexed", "instpred", "trigger"]
 
 
 def forest_to_json(f):
@@ -57,7 +57,7 @@ def apply_dev(names, dev):
         elif kind == "equal":
             names[i] = names[j]
         elif kind == "unicode":
-            names[i] = ["\u00e9" + names[i], names[i] + "\u540d\u524d", "pr\u00e9" + names[i] + "-x.y"][j % 3]
+            names[i] = ["\u00e9" + names[i], names[i] + "\u540d\u524d", "pr\u00e9" + names[i] + "-x.y", "My" + names[i].upper() + "x"][j % 4]
     return names
 
 
@@ -316,7 +316,9 @@ def build(case):
         elif shape == "lastsaved":
             cells = {"calculation": f"${{last-saved#{t}}} + 105",
                      "default": f"${{last-saved#{t}}}", "relevant": f"${{last-saved#{t}}} = 101 and ${{{t}}} = 1",
-                     "choice_filter": f"cf = ${{last-saved#{t}}}"}
+                     "choice_filter": f"cf = ${{last-saved#{t}}}", "parameters": f"randomize=true seed=${{last-saved#{t}}}"}
+        elif shape == "lastsaved-seed":
+            cells = {"parameters": f"randomize=true seed=${{last-saved#{t}}}"}
         elif shape == "lastsaved-text":
             cells = {"label": f"L ${{last-saved#{t}}} l", "hint": f"H ${{last-saved#{t}}} h"}
         elif shape == "indexed":
@@ -638,7 +640,7 @@ def check_one(case):
             do_cell(cell, src, m.group(1) if m else None)
         elif cell == "parameters":
             its = ctrl.find(O.X + "itemset") if ctrl is not None else None
-            m = re.search(r"\],\s*(.*)\)$", its.get("nodeset")) if its is not None else None
+            m = re.search(r"^randomize\(instance\('[^']*'\)/root/item(?:\[.*\])?,\s*(.*)\)$", its.get("nodeset")) if its is not None else None
             do_cell("seed", src.split("seed=")[1], m.group(1) if m else None)
         elif cell == "instance::ia":
             el = obs.paths.get(px)
@@ -668,7 +670,7 @@ def check_one(case):
         ls = [(i, s) for i, s, _ in obs.secondary_instances() if i == "__last-saved"]
         if len(ls) != 1 or ls[0][1] != "jr://instance/last-saved":
             where = "container-relevant" if X["kind"] != "q" and case["shape"] == "lastsaved" else (
-                "text-cells-only" if case["shape"] == "lastsaved-text" else "question-logic")
+                "text-cells-only" if case["shape"] == "lastsaved-text" else ("seed-parameter-only" if case["shape"] == "lastsaved-seed" else "question-logic"))
             viol.append((f"last-saved-instance-not-declared-once:{where}", str(ls)))
     return {"outcome": "ok", "nt": crossing[0] and not viol, "viol": viol, "tr": ntr}
 
